@@ -37,7 +37,8 @@ MANIFEST = dict(
          'granted <= min(requested, max) for requested > 0; GetStatus/Renew answers = granted - elapsed on the 10 ms raster; '
          'unknown / unsubscribed / ended identifiers get a fault and change nothing; stop with end messages posts exactly one '
          'SubscriptionEnd per live subscription to EndTo else NotifyTo, none when switched off. The model is compared with '
-         'the real managers on generated and directed op sequences on every run; the monitor is the run-time oracle.',
+         'the real managers on generated and directed op sequences on every run; the Python monitor is the run-time oracle and its '
+         'alive/known view is compared with the Lean monitor of the theorems after every op.',
     note='Known (not repaired): Expires=PT0S is granted the maximum; filter entries match by suffix. Repaired: sync manager '
          'delivered after Unsubscribe; Renew/GetStatus/Unsubscribe were answered for an unsubscribed subscription. '
          'Trusted: harness (fake transport, virtual clock on a 10 ms raster), asyncio loop, lxml; thread interleavings of '
@@ -451,6 +452,12 @@ class Monitor:
     def fail(self, sig, detail):
         self.fails.append((sig, detail))
 
+    def view(self):
+        """ids considered alive / known; compared with the Lean reference monitor `Mon` (fed with the model's answers)"""
+        alive = [str(i) for i, r in enumerate(self.recs) if self.alive(r)]
+        known = [str(i) for i, r in enumerate(self.recs) if not r['unsub'] and not r['ended']]
+        return ' | alive=' + ','.join(alive) + ' known=' + ','.join(known)
+
     def _check_grant(self, what, req, g):
         if g > self.maxdur:
             self.fail('granted-exceeds-maximum', f'{what}: granted {g / 100} s > provider maximum {self.maxdur / 100} s')
@@ -583,6 +590,7 @@ def execute(case):
             lines.append(line)
             outs.append(out)
             mon.feed(op, parsed)
+            outs[-1] += mon.view()
             key = f'op:{op[0]}:{out.split(" ")[0]}'
             stats[key] = stats.get(key, 0) + 1
             if parsed[0] == 'sent':
